@@ -1,10 +1,274 @@
-import EphVerif.Model.Routing
-import EphVerif.Spec.Routing
+import EphVerif.Lemmas.C07Closest
 
+/-!
+# C07 — routing table answers XOR-closest live peers and keeps bucket shape
+
+  "A closest-peer query returns, in strictly increasing XOR distance to the target, the min(k, n)
+   nearest of the n unexpired contacts the table holds; the node's own id is never held, no bucket
+   holds more than 16 contacts, every contact sits in the bucket of its highest bit differing from
+   the local id, and a refreshed contact keeps a single entry with its newest address and expiry."
+
+Property theorems about the model `EphVerif.Routing` (Model/Routing.lean) of
+`src/dht/KademliaTable.cpp`, stated with the vocabulary of Spec/Routing.lean.  They hold for every
+local id, every start time and every finite sequence of operations (`Op`: clock advances of any
+sign, `register_peer`, `add_contact`, sweeps, queries) over arbitrary 32-byte ids; no bound on the
+number of operations, contacts or on time.  `WfId x` says `x` is a `PeerId` (32 bytes);
+`OpsWf ops` says the ids mentioned by the operations are.
+-/
 namespace EphVerif.C07
-open EphVerif.Routing
+open EphVerif.Routing EphVerif.C07Spec EphVerif.C07L
 
-/-- generated constant obligation: the code's bucket capacity is the 16 the property names -/
+/-- the table reached from the empty one (local id `self`, clock at `t0`) by `ops` -/
+def reach (self : Id) (t0 : Int) (ops : List Op) : State := run (State.init self t0) ops
+
+/-- generated-constant obligation: the code's bucket capacity is the 16 the property names -/
 theorem bucketSize_eq : kBucketSize = 16 := by decide
+
+/-- generated-constant obligation: `kIdBits` (= `PeerId{}.size() * 8`) is 256 -/
+theorem idBits_eq : kIdBits = 256 := by decide
+
+/-- **bucket index.**  The byte-wise `countl_zero` loop of `bucket_index_for` returns the position
+    of the highest set bit of `self xor peer` read as 256-bit numbers, and no bucket for the
+    local id itself. -/
+theorem bucket_index_eq_log2 (self peer : Id) (hs : WfId self) (hp : WfId peer) :
+    bucketIndexFor self peer = if self = peer then none else some (Nat.log2 (toNat self ^^^ toNat peer)) :=
+  bucketIndexFor_wf hs hp idBits_eq
+
+/-- … which is to say: `bucket_index_for` answers `i` exactly when `i` is the highest bit in which
+    the two ids differ (stated with `Nat.testBit`, without `log2`). -/
+theorem bucket_index_iff_highest_diff (self peer : Id) (hs : WfId self) (hp : WfId peer) (i : Nat) :
+    bucketIndexFor self peer = some i ↔ HighestDiff (toNat self) (toNat peer) i := by
+  rw [bucket_index_eq_log2 self peer hs hp, highestDiff_iff]
+  constructor
+  · intro h
+    split at h
+    · cases h
+    · rename_i hne
+      cases h
+      exact ⟨fun he => hne (hs.inj hp he), rfl⟩
+  · rintro ⟨hne, rfl⟩
+    rw [if_neg (fun he => hne (by rw [he]))]
+    rfl
+
+/-- **bucket shape, on the model's own terms** (no assumption on the ids at all): after any
+    history the local id is not held, no bucket has more than 16 entries, every entry of bucket `i`
+    is one `bucket_index_for` sends to `i`, and no id occurs twice in the whole table. -/
+theorem inv (self : Id) (t0 : Int) (ops : List Op) :
+    let t := (reach self t0 ops).table
+    (∀ c, Held t c → c.id ≠ self) ∧
+    (∀ i, (t.buckets i).length ≤ 16) ∧
+    (∀ i, ∀ c ∈ t.buckets i, bucketIndexFor self c.id = some i) ∧
+    (allContacts t).Pairwise (fun a b => a.id ≠ b.id) ∧
+    (∀ c, c ∈ allContacts t ↔ Held t c) := by
+  intro t
+  have h : Inv t := (Inv.empty self).run ops
+  have hself : t.self = self := run_self _ ops
+  refine ⟨?_, ?_, ?_, h.allContacts_nodup, fun c => mem_allContacts h⟩
+  · intro c hc; rw [← hself]; exact h.self_not_held hc
+  · intro i; rw [← bucketSize_eq]; exact (h i).cap
+  · intro i c hc; rw [← hself]; exact (h i).place c hc
+
+/-- **bucket shape, as the property states it** (ids as 256-bit numbers): the node's own id is
+    never held, no bucket holds more than 16 contacts, every contact sits in the bucket of its
+    highest differing bit, one entry per id. -/
+theorem shape (self : Id) (t0 : Int) (ops : List Op) (hs : WfId self) (ho : OpsWf ops) :
+    Shape (toNat self) (dumpOf (reach self t0 ops).table) := by
+  have h : Inv (reach self t0 ops).table := (Inv.empty self).run ops
+  have w : WfT (reach self t0 ops).table := WfT.run (Inv.empty self) (WfT.empty hs) ho
+  have := shape_of_inv h w idBits_eq bucketSize_eq
+  rwa [show (reach self t0 ops).table.self = self from run_self _ ops] at this
+
+/-- every contact sits in the bucket of its highest bit differing from the local id -/
+theorem placement (self : Id) (t0 : Int) (ops : List Op) (hs : WfId self) (ho : OpsWf ops) :
+    ∀ i, ∀ c ∈ (reach self t0 ops).table.buckets i, HighestDiff (toNat self) (toNat c.id) i := by
+  intro i c hc
+  have h : Inv (reach self t0 ops).table := (Inv.empty self).run ops
+  have w : WfT (reach self t0 ops).table := WfT.run (Inv.empty self) (WfT.empty hs) ho
+  have hp := (h i).place c hc
+  rw [show (reach self t0 ops).table.self = self from run_self _ ops] at hp
+  exact (bucket_index_iff_highest_diff self c.id hs (w.held i c hc) i).1 hp
+
+/-- **newest address and expiry.**  After any history every held contact carries the address and
+    expiry of the most recent registration of its id (`runLog` = the model's `run` together with
+    the specification's log of registrations; `register_peer`'s epoch value means "now"). -/
+theorem newest (self : Id) (t0 : Int) (ops : List Op) (hs : WfId self) (ho : OpsWf ops) :
+    Newest (runLog (State.init self t0, []) ops).2 (dumpOf (reach self t0 ops).table) := by
+  have hn : NewestInv (State.init self t0, ([] : Log)).1.table (State.init self t0, ([] : Log)).2 :=
+    fun _ c hc => by simp [State.init, Table.empty] at hc
+  have := NewestInv.runLog (st := (State.init self t0, [])) hn (Inv.empty self) (WfT.empty hs) ho
+  have h : Inv (runLog (State.init self t0, []) ops).1.table := by
+    rw [runLog_fst]; exact (Inv.empty self).run ops
+  have r := newest_of this h
+  rwa [runLog_fst] at r
+
+/-- **a refreshed contact keeps a single entry**: right after `register_peer` of an id other than
+    the local one — whether or not it was held before — the table holds exactly one entry with
+    that id, and it carries the new address and expiry. -/
+theorem registered_single (self : Id) (t0 : Int) (ops : List Op) (hs : WfId self) (ho : OpsWf ops)
+    (id : Id) (addr : String) (exp : Int) (hid : WfId id) (hne : id ≠ self) :
+    JustRegistered (dumpOf (reach self t0 (ops ++ [.reg id addr exp])).table) (toNat id) addr
+      (effExp (reach self t0 ops).now exp) := by
+  have h : Inv (reach self t0 ops).table := (Inv.empty self).run ops
+  have w : WfT (reach self t0 ops).table := WfT.run (Inv.empty self) (WfT.empty hs) ho
+  have hself : (reach self t0 ops).table.self = self := run_self _ ops
+  simp only [reach, run, List.foldl_append, List.foldl_cons, List.foldl_nil] at *
+  simp only [step, registerPeer]
+  have := justRegistered_upsert h w idBits_eq bucketSize_eq (List.foldl step (State.init self t0) ops).now
+    (if exp = 0 then ⟨id, addr, (List.foldl step (State.init self t0) ops).now⟩ else ⟨id, addr, exp⟩)
+    (by split <;> exact hid) (by rw [hself]; split <;> exact hne)
+  have e1 : (if exp = 0 then (⟨id, addr, (List.foldl step (State.init self t0) ops).now⟩ : Contact) else ⟨id, addr, exp⟩).id = id := by
+    split <;> rfl
+  have e2 : (if exp = 0 then (⟨id, addr, (List.foldl step (State.init self t0) ops).now⟩ : Contact) else ⟨id, addr, exp⟩).addr = addr := by
+    split <;> rfl
+  have e3 : (if exp = 0 then (⟨id, addr, (List.foldl step (State.init self t0) ops).now⟩ : Contact) else ⟨id, addr, exp⟩).exp
+      = effExp (List.foldl step (State.init self t0) ops).now exp := by
+    unfold effExp; split <;> rfl
+  rw [e1, e2, e3] at this
+  exact this
+
+/-- the same for the `upsert_bucket` call of `add_contact` (expiry = now + ttl) -/
+theorem added_single (self : Id) (t0 : Int) (ops : List Op) (hs : WfId self) (ho : OpsWf ops)
+    (id : Id) (addr : String) (ttl : Int) (hid : WfId id) (hne : id ≠ self) :
+    JustRegistered (dumpOf (reach self t0 (ops ++ [.add id addr ttl])).table) (toNat id) addr
+      ((reach self t0 ops).now + ttl) := by
+  have h : Inv (reach self t0 ops).table := (Inv.empty self).run ops
+  have w : WfT (reach self t0 ops).table := WfT.run (Inv.empty self) (WfT.empty hs) ho
+  have hself : (reach self t0 ops).table.self = self := run_self _ ops
+  simp only [reach, run, List.foldl_append, List.foldl_cons, List.foldl_nil] at *
+  exact justRegistered_upsert h w idBits_eq bucketSize_eq (List.foldl step (State.init self t0) ops).now
+    ⟨id, addr, (List.foldl step (State.init self t0) ops).now + ttl⟩ hid (by rw [hself]; exact hne)
+
+/-- **closest-peer queries.**  After any history, `closest_peers(target, k)` returns min(k, n) of
+    the n unexpired held contacts, in strictly increasing XOR distance (as 256-bit numbers) to the
+    target, all of them unexpired held contacts, and every unexpired held contact it leaves out
+    is strictly farther than every one it returns (`k = 0` gives the empty list). -/
+theorem closest (self : Id) (t0 : Int) (ops : List Op) (hs : WfId self) (ho : OpsWf ops)
+    (target : Id) (ht : WfId target) (k : Nat) :
+    let s := reach self t0 ops
+    IsClosest (entries (dumpOf s.table)) s.now (toNat target) k ((closestPeers s.table s.now target k).map abs) := by
+  intro s
+  exact closest_isClosest ((Inv.empty self).run ops) (WfT.run (Inv.empty self) (WfT.empty hs) ho) s.now ht k
+
+/-- the clauses of `IsClosest` leave no freedom: at most one list satisfies them -/
+theorem closest_unique {held : List Entry} {now : Int} {target k : Nat} {r₁ r₂ : List Entry}
+    (h1 : IsClosest held now target k r₁) (h2 : IsClosest held now target k r₂) : r₁ = r₂ :=
+  isClosest_unique h1 h2
+
+/-- **`std::sort` cannot matter.**  Over contacts with pairwise distinct 32-byte ids, any two
+    permutations of the candidate list that the comparator `lhs.distance < rhs.distance` accepts as
+    sorted are the same list (distinct ids have distinct distances), so every correct sorting
+    algorithm — stable or not — yields what the model's merge sort yields. -/
+theorem sort_unique (L : List Contact) (target : Id) (ht : WfId target) (hw : ∀ c ∈ L, WfId c.id)
+    (hn : L.Pairwise (fun a b => a.id ≠ b.id)) (S₁ S₂ : List Candidate)
+    (h1 : S₁.Perm (L.map (mkCand target))) (h2 : S₂.Perm (L.map (mkCand target)))
+    (s1 : S₁.Pairwise (fun a b => lexLt b.distance a.distance = false))
+    (s2 : S₂.Pairwise (fun a b => lexLt b.distance a.distance = false)) : S₁ = S₂ :=
+  sorted_unique ht hw hn h1 h2 (s1.imp (fun h => by simp [candLe, h])) (s2.imp (fun h => by simp [candLe, h]))
+
+/-- byte-lexicographic order of distances is numeric order of the 256-bit XOR distances -/
+theorem distance_order (a b target : Id) (ha : WfId a) (hb : WfId b) (ht : WfId target) :
+    lexLt (xorDistance a target) (xorDistance b target) = true ↔
+      toNat a ^^^ toNat target < toNat b ^^^ toNat target := by
+  rw [lexLt_iff _ _ (by rw [length_xorDistance, length_xorDistance, ha.1, hb.1])
+    (bytes_xorDistance _ _ ha.2 ht.2) (bytes_xorDistance _ _ hb.2 ht.2),
+    toNat_xorDistance _ _ (by rw [ha.1, ht.1]) ha.2 ht.2, toNat_xorDistance _ _ (by rw [hb.1, ht.1]) hb.2 ht.2]
+
+/-- **sweeps** remove nothing unexpired, add nothing, and leave nothing expired -/
+theorem sweep_keeps (self : Id) (t0 : Int) (ops : List Op) :
+    let s := reach self t0 ops
+    SweepKeeps (entries (dumpOf s.table)) (entries (dumpOf (reach self t0 (ops ++ [.sweep])).table)) s.now ∧
+    ∀ e ∈ entries (dumpOf (reach self t0 (ops ++ [.sweep])).table), s.now < e.exp := by
+  intro s
+  have : (reach self t0 (ops ++ [.sweep])).table = sweepBuckets s.table s.now := by
+    simp [reach, run, List.foldl_append, step, s]
+  rw [this]
+  exact ⟨sweepKeeps _ _, sweep_clean _ _⟩
+
+/-! ### non-vacuity: concrete histories exercising every branch -/
+
+/-- a 32-byte id with first byte `hi` and last byte `lo`, zeros between -/
+def idOf (hi lo : Nat) : Id := hi :: (List.replicate 30 0 ++ [lo])
+
+theorem idOf_wf (hi lo : Nat) (h1 : hi < 256) (h2 : lo < 256) : WfId (idOf hi lo) := by
+  refine ⟨by simp [idOf], ?_⟩
+  intro b hb
+  simp only [idOf, List.mem_cons, List.mem_append, List.mem_replicate, List.not_mem_nil, or_false] at hb
+  rcases hb with rfl | ⟨_, rfl⟩ | rfl <;> omega
+
+/-- ids sharing a 255-bit prefix with the local id go to bucket 0, ids differing in the top bit to
+    bucket 255, and byte boundaries fall where they should (7/8) -/
+example : bucketIndexFor (idOf 0 0) (idOf 0 1) = some 0 := by decide
+example : bucketIndexFor (idOf 0 0) (idOf 128 0) = some 255 := by decide
+example : bucketIndexFor (idOf 0 0) (idOf 0 128) = some 7 := by decide
+example : bucketIndexFor (idOf 0 0) (List.replicate 30 0 ++ [1, 0]) = some 8 := by decide
+example : bucketIndexFor (idOf 255 255) (idOf 255 254) = some 0 := by decide
+example : bucketIndexFor (idOf 7 9) (idOf 7 9) = none := by decide
+
+/-- 17 registrations into one bucket (ids 0x80…01 … 0x80…11 at the all-zero local id) -/
+def seventeen : List Op := (List.range 17).map fun k => Op.reg (idOf 128 (k + 1)) s!"a{k + 1}" 100
+
+example : ((reach (idOf 0 0) 10 seventeen).table.buckets 255).map (fun c => c.id.getLast?) =
+    (List.range 16).map (fun k => some (k + 2)) := by decide
+
+/-- a refresh keeps one entry, moves it to the back and takes the new address and expiry -/
+example : (reach (idOf 0 0) 10 [.reg (idOf 128 1) "a" 100, .reg (idOf 128 2) "b" 100, .reg (idOf 128 1) "a2" 200]).table.buckets 255
+    = [⟨idOf 128 2, "b", 100⟩, ⟨idOf 128 1, "a2", 200⟩] := by decide
+
+/-- refreshing the oldest entry just before the bucket overflows saves it: the next one goes -/
+example : ((reach (idOf 0 0) 10 (seventeen.take 16 ++ [.reg (idOf 128 1) "again" 300, .reg (idOf 128 17) "n" 100])).table.buckets 255).map
+    (fun c => c.id.getLast?) = (List.range 14).map (fun k => some (k + 3)) ++ [some 1, some 17] := by decide
+
+/-- expired entries are pruned before the LRU eviction is considered: with 16 entries of which the
+    first has expired, a newcomer displaces nobody alive -/
+example : ((reach (idOf 0 0) 10 ([Op.reg (idOf 128 1) "short" 20] ++ (seventeen.drop 1).take 15 ++
+      [.adv 10, .reg (idOf 128 17) "n" 100])).table.buckets 255).map (fun c => c.id.getLast?) =
+    (List.range 16).map (fun k => some (k + 2)) := by decide
+
+/-- the epoch sentinel of `register_peer` means "now" (so the contact is born expired), the local
+    id is ignored, and `add_contact` counts its ttl from now -/
+example :
+    let t := (reach (idOf 0 0) 10 [.reg (idOf 0 1) "e" 0, .reg (idOf 0 0) "me" 100, .add (idOf 0 2) "p" 5]).table
+    t.buckets 0 = [⟨idOf 0 1, "e", 10⟩] ∧ t.buckets 1 = [⟨idOf 0 2, "p", 15⟩] ∧ t.buckets 255 = [] := by decide
+
+/-- a history for queries: contacts in buckets 0, 1, 2 and 255, one of which has expired exactly at
+    the query time 20 (`now = expires_at` counts as expired) -/
+def queryOps : List Op :=
+  [.reg (idOf 128 1) "far" 100, .reg (idOf 0 4) "d4" 100, .reg (idOf 0 7) "gone" 20, .reg (idOf 0 1) "d1" 100,
+   .reg (idOf 0 2) "d2" 100, .adv 10]
+
+theorem queryOps_wf : OpsWf queryOps := by
+  intro op h
+  simp only [queryOps, List.mem_cons, List.not_mem_nil, or_false] at h
+  rcases h with rfl | rfl | rfl | rfl | rfl | rfl <;>
+    first | trivial | exact idOf_wf _ _ (by omega) (by omega)
+
+set_option maxRecDepth 10000 in
+/-- non-vacuity of `closest` with a limit below the number of live contacts: the hypotheses are met
+    by `queryOps`, and the specification (which fixes the answer, `closest_unique`) evaluates to the
+    three nearest of the four live contacts, nearest first, without the expired one -/
+example : (closestPeers (reach (idOf 0 0) 10 queryOps).table 20 (idOf 0 6) 3).map abs
+    = [abs ⟨idOf 0 4, "d4", 100⟩, abs ⟨idOf 0 2, "d2", 100⟩, abs ⟨idOf 0 1, "d1", 100⟩] := by
+  have h := closest (idOf 0 0) 10 queryOps (idOf_wf _ _ (by omega) (by omega)) queryOps_wf (idOf 0 6)
+    (idOf_wf _ _ (by omega) (by omega)) 3
+  exact closest_unique h (by decide)
+
+/-- the contact that expired at the query time is still held (nothing swept it), which is what makes
+    the previous example exercise the `expired` skip -/
+example : (reach (idOf 0 0) 10 queryOps).table.buckets 2 = [⟨idOf 0 4, "d4", 100⟩, ⟨idOf 0 7, "gone", 20⟩] ∧
+    (reach (idOf 0 0) 10 queryOps).now = 20 := by decide
+
+/-- non-vacuity of `shape`, `newest` and `registered_single` on the 17-registration history -/
+theorem seventeen_wf : OpsWf seventeen := by
+  intro op h
+  simp only [seventeen, List.mem_map, List.mem_range] at h
+  obtain ⟨k, hk, rfl⟩ := h
+  exact idOf_wf _ _ (by omega) (by omega)
+
+example : Shape (toNat (idOf 0 0)) (dumpOf (reach (idOf 0 0) 10 seventeen).table) :=
+  shape _ _ _ (idOf_wf _ _ (by omega) (by omega)) seventeen_wf
+
+example : JustRegistered (dumpOf (reach (idOf 0 0) 10 (seventeen ++ [.reg (idOf 128 5) "new" 0])).table)
+    (toNat (idOf 128 5)) "new" 10 :=
+  registered_single _ _ _ (idOf_wf _ _ (by omega) (by omega)) seventeen_wf _ _ _ (idOf_wf _ _ (by omega) (by omega)) (by decide)
 
 end EphVerif.C07
